@@ -16,13 +16,14 @@
     §3 vocabulary (C06)            `trso_vocab_C05`, `trso_no_domains_target_only`   (proofs in Props/C06Transport)
     §4 semantics                   `den_sumSafe`, `line1_den`  (line 1 is marginalisation of the carried distribution)
   What is NOT proved (visible below as `-- OPEN:` blocks and listed in ASSUMPTIONS of the harness module):
-    trso_sound, trso_no_surrogate_iff_id, trso_no_internal_error.
+    trso_sound, trso_no_surrogate_iff_id (den part), trso_no_internal_error (inputs with declared experiments).
 -/
 import Y0.Props.C06Transport
 import Y0.Lemmas.TrsoTotal
 import Y0.Spec.FamilySpec
 import Y0.Lemmas.Prob
 import Y0.Props.C14
+import Y0.Lemmas.TrsoNoErr
 
 namespace Y0
 namespace Trso
@@ -166,15 +167,54 @@ theorem identify_trichotomy {sep : SepTest} (hs : SepInternal sep) (G : MG Name)
     · rw [hv] at hv'; cases hv'
     · exact Or.inr (Or.inr ⟨k, by rw [hk]⟩)
 
--- OPEN: trso_no_internal_error  (the clause "it never fails other than by returning 'no estimand'")
---   theorem trso_no_internal_error (G : MG Name) (hG : G.WF) (hA : G.Acyclic) (hT : ∀ v ∈ G.nodes, isTnode v = false)
---       (hv : validInput G Y X outcomes interventions = true) :
+/-- **No failure when no surrogate experiment is declared** (the clause "it never fails other than by returning 'no
+estimand'", for every input whose source domains declare no experiment: the case in which TRSO has to behave like ID).
+On every validated input over a well-formed acyclic graph of user variables (names below 200, so that the selection
+nodes `T_v = 200 + v` are fresh) with non-empty outcomes, `identify_target_outcomes` returns an estimand or "no
+estimand": no lookup fails (the node sets needed by every later step are preserved by lines 2-4 and 10), no
+`topological_sort` / `index` fails, no expression operator fails (the carried expression never contains `Zero()`, so
+no division by zero; line 9's product is a `Fraction`, so `simplify` exists), and the recursion budget `Query.fuel` is
+never exhausted (the measure (|V|, |V - X|) decreases lexicographically at every recursive call).  The separation
+test is arbitrary: it is never called.  Proof: Lemmas/TrsoGraphInv, TrsoT234, TrsoT610 (graph invariant), TrsoClean
+(expression operators), TrsoInit (initial query), TrsoNoErr (assembly). -/
+theorem trso_no_internal_error_partial (sep : SepTest) (G : MG Name) (hG : G.WF) (hA : G.Acyclic)
+    (hsmall : ∀ v ∈ G.nodes, v < 200) (Y X : List Name) (outcomes interventions : List (Pop × List Name))
+    (hv : validInput G Y X outcomes interventions = true) (hY : Y ≠ [])
+    (hZ : ∀ p ∈ interventions, p.2 = []) :
+    ∃ r, identifyTargetOutcomes sep G Y X outcomes interventions = .ok r := by
+  obtain ⟨graphs, hg⟩ := surrogateToTransport_ok hG hv
+  obtain ⟨hinv, hmu, hc⟩ := initial_inv hG hA (noT_of_small hsmall) hsmall hv hY hg
+  rw [identify_eq_trso hv hg]
+  obtain ⟨o, ho, _⟩ := trsoF_target_ok sep _ _ _ G hinv (initial_noSurr hZ) hc hmu
+  exact ⟨o, ho⟩
+
+/-- in particular: no internal error and no invalid-input error on such inputs -/
+theorem trso_no_error_class_partial (sep : SepTest) (G : MG Name) (hG : G.WF) (hA : G.Acyclic)
+    (hsmall : ∀ v ∈ G.nodes, v < 200) (Y X : List Name) (outcomes interventions : List (Pop × List Name))
+    (hv : validInput G Y X outcomes interventions = true) (hY : Y ≠ [])
+    (hZ : ∀ p ∈ interventions, p.2 = []) (k : String) :
+    identifyTargetOutcomes sep G Y X outcomes interventions ≠ .error (.internal k) := by
+  obtain ⟨r, hr⟩ := trso_no_internal_error_partial sep G hG hA hsmall Y X outcomes interventions hv hY hZ
+  rw [hr]; intro h; cases h
+
+/-- non-vacuity: the napkin graph with a source domain that declares surrogate outcomes but no experiment -/
+example : validInput (MG.fromEdges [] [(0, 1), (1, 2), (2, 3)] [(0, 2), (0, 3)]) [3] [2] [(1001, [1])] [(1001, [])] = true := by
+  decide
+
+-- OPEN: trso_no_internal_error  (the clause "it never fails other than by returning 'no estimand'", all inputs)
+--   theorem trso_no_internal_error (G : MG Name) (hG : G.WF) (hA : G.Acyclic) (hsmall : ∀ v ∈ G.nodes, v < 200)
+--       (hv : validInput G Y X outcomes interventions = true) (hY : Y ≠ []) :
 --       ∀ k, identifyTargetOutcomes dSeparated G Y X outcomes interventions ≠ .error (.internal k)
---   Needs the graph invariants of the recursion (every graph of the query is a well-formed acyclic sub-diagram that
---   contains the outcomes; the children of a surviving selection node are target interventions; the budget
---   `Query.fuel` bounds the lexicographic measure (active = ∅, |V|, |V_regular − X|, |V − X|)).  Not proved; every run
---   of the check compares the error category of the model and of the Python on ~10^4 inputs and reports any
---   exception on valid input as a violation.
+--   Proved above for inputs without declared experiments (`trso_no_internal_error_partial`).  What is missing for inputs
+--   WITH experiments is the phase after line 6 (the run inside a source domain): (i) the graph invariant there - every
+--   selection node that survives has all its children among the target interventions, which follows from the positive
+--   answer of the separation test (`allTransportsDSeparated_true_blocks` in Lemmas/TrsoSep is the needed fact about the
+--   model of `are_d_separated`; `allTransportsDSeparated_total` shows the test itself never fails), so that line 3
+--   absorbs the selection nodes into X before line 4 can split on them; (ii) `activate_domain_and_interventions` raises
+--   NotImplementedError on `One()` (e.g. a fraction with numerator One): unreachability needs a shape argument about
+--   the estimands returned by the source-phase recursion (line 9's numerator never cancels completely).  Every run of
+--   the check compares the error category of the model and of the Python on ~10^4 inputs and reports any exception on
+--   valid input as a violation.
 
 /-! ## 2. Selection diagrams, set-theoretically -/
 
